@@ -39,10 +39,18 @@ type FuncContract struct {
 	Loops     map[int]*LoopSpec
 	Decreases *Clause // recursion measure
 	Flags     map[string]string
+	Defines   []*Define // ghost bookkeeping defined by this function's result (assumed at call sites, not checked in the body)
 	Props     []string // property ids this contract's obligations belong to ("" = by function map)
 	Params    []string // explicit parameter names for interface/extern/functype contracts
 	File      string
 	Line      int
+}
+
+// Define is "defines <designator>: <expr>": after the call the ghost location holds expr (evaluated in the post-state, old() allowed).
+type Define struct {
+	Target string
+	Expr   Expr
+	Text   string
 }
 
 type GhostVar struct {
@@ -93,7 +101,7 @@ func (p *Program) loadContracts() (*ContractSet, error) {
 	seen := map[string]bool{}
 	for _, pkg := range p.Pkgs {
 		for _, f := range pkg.CompiledGoFiles {
-			if strings.HasPrefix(filepath.Base(f), "contracts_verif") && !seen[f] {
+			if b := filepath.Base(f); strings.HasPrefix(b, "contracts_") && strings.HasSuffix(b, "verif.go") && !seen[f] {
 				seen[f] = true
 				files = append(files, f)
 				if err := cs.parseFile(f, pkg.Name); err != nil {
@@ -243,6 +251,19 @@ func (cs *ContractSet) parseFile(path, pkg string) error {
 			} else {
 				cur.Ensures = append(cur.Ensures, c)
 			}
+		case "defines":
+			if cur == nil {
+				return fail("defines outside a block")
+			}
+			i := strings.Index(rest, ":")
+			if i < 0 {
+				return fail("defines needs target: expr")
+			}
+			e, err := ParseExpr(rest[i+1:])
+			if err != nil {
+				return fail("defines: %v", err)
+			}
+			cur.Defines = append(cur.Defines, &Define{Target: strings.TrimSpace(rest[:i]), Expr: e, Text: rest})
 		case "assigns":
 			if cur == nil {
 				return fail("assigns outside a block")
